@@ -931,23 +931,26 @@ func (pc *PeerConnection) CreateAnswer(options *AnswerOptions) (SessionDescripti
 		return SessionDescription{}, &rtcerr.InvalidStateError{Err: ErrIncorrectSignalingState}
 	}
 
-	connectionRole := connectionRoleFromDtlsRole(pc.api.settingEngine.answeringDTLSRole)
-	if connectionRole == sdp.ConnectionRole(0) {
-		dtlsRole := dtlsRoleFromSDP(remoteDesc.parsed)
-		switch dtlsRole {
-		case DTLSRoleClient:
-			connectionRole = connectionRoleFromDtlsRole(DTLSRoleServer)
-		case DTLSRoleServer:
-			connectionRole = connectionRoleFromDtlsRole(DTLSRoleClient)
-		default:
+	// The answer has to announce the role that DTLSTransport.role() takes. An explicit role of the
+	// offerer only leaves the inverse role to us (RFC 4145 S4.1), the answering role of the
+	// SettingEngine and the ICE role only decide if the offerer left the choice to us.
+	var connectionRole sdp.ConnectionRole
+	switch dtlsRoleFromSDP(remoteDesc.parsed) {
+	case DTLSRoleClient:
+		connectionRole = connectionRoleFromDtlsRole(DTLSRoleServer)
+	case DTLSRoleServer:
+		connectionRole = connectionRoleFromDtlsRole(DTLSRoleClient)
+	default:
+		connectionRole = connectionRoleFromDtlsRole(pc.api.settingEngine.answeringDTLSRole)
+		if connectionRole == sdp.ConnectionRole(0) {
 			connectionRole = connectionRoleFromDtlsRole(defaultDtlsRoleAnswer)
-		}
 
-		// If one of the agents is lite and the other one is not, the lite agent must be the controlled agent.
-		// If both or neither agents are lite the offering agent is controlling.
-		// RFC 8445 S6.1.1
-		if isIceLiteSet(remoteDesc.parsed) && !pc.api.settingEngine.candidates.ICELite {
-			connectionRole = connectionRoleFromDtlsRole(DTLSRoleServer)
+			// If one of the agents is lite and the other one is not, the lite agent must be the controlled agent.
+			// If both or neither agents are lite the offering agent is controlling.
+			// RFC 8445 S6.1.1
+			if isIceLiteSet(remoteDesc.parsed) && !pc.api.settingEngine.candidates.ICELite {
+				connectionRole = connectionRoleFromDtlsRole(DTLSRoleServer)
+			}
 		}
 	}
 	pc.mu.Lock()
